@@ -24,7 +24,7 @@ import sys
 
 REPO = os.environ.get("PYTYPE_REPO", "/repo")
 VERIF = os.path.dirname(os.path.dirname(os.path.abspath(__file__)))
-OUT = os.path.join(VERIF, "lean", "PytypeModel", "Generated", "OpcodeDispatch.lean")
+OUT = os.path.join(os.environ.get("VERIF_LEAN_DIR") or os.path.join(VERIF, "lean"), "PytypeModel", "Generated", "OpcodeDispatch.lean")
 
 VERSIONS = [8, 9, 10, 11, 12]  # utils.validate_version accepts 3.8 .. 3.12
 
